@@ -14,6 +14,7 @@ def main():
         os.environ["PYVC_UPDATE_BASELINE"] = "1"
     if a.tier == "thorough" and "PYVC_NO_CACHE" not in os.environ:
         os.environ["PYVC_NO_CACHE"] = "1"          # thorough: every verification condition goes to the solver
+    os.environ["PYVC_TIER"] = a.tier
     pid = a.pid.upper()
     try:
         mod = importlib.import_module("props.%s" % pid.lower())
